@@ -120,6 +120,23 @@ func tn93Distance(query, target fastaio.EncodedFastaRecord) float64 {
 	return d
 }
 
+// closer returns true if distance a is strictly smaller than distance b. An undefined distance
+// (NaN: the pair has no site at which both sequences are resolved) is further than any defined one.
+func closer(a, b float64) bool {
+	if math.IsNaN(a) {
+		return false
+	}
+	if math.IsNaN(b) {
+		return true
+	}
+	return a < b
+}
+
+// equidistant returns true if two distances are equal, or are both undefined
+func equidistant(a, b float64) bool {
+	return a == b || (math.IsNaN(a) && math.IsNaN(b))
+}
+
 // findClosest finds the single closest sequence by genetic distance among a set of target sequences to a query sequence
 func findClosest(query fastaio.EncodedFastaRecord, measure string, cIn chan fastaio.EncodedFastaRecord, cOut chan resultsStruct) {
 	var closest resultsStruct
@@ -153,7 +170,7 @@ func findClosest(query fastaio.EncodedFastaRecord, measure string, cIn chan fast
 			continue
 		}
 
-		if distance < closest.distance {
+		if closer(distance, closest.distance) {
 			snps = make([]string, 0)
 			for i, tNuc := range target.Seq {
 				if (query.Seq[i] & tNuc) < 16 {
@@ -162,7 +179,7 @@ func findClosest(query fastaio.EncodedFastaRecord, measure string, cIn chan fast
 			}
 			closest = resultsStruct{tname: target.ID, completeness: target.Score, distance: distance, snps: snps}
 
-		} else if distance == closest.distance {
+		} else if equidistant(distance, closest.distance) {
 			if target.Score > closest.completeness {
 				snps = make([]string, 0)
 				for i, tNuc := range target.Seq {
